@@ -42,6 +42,12 @@ func c19Constraints() []c19Constraint {
 		{"properties.maxLength", gen.S{"type": "object", "properties": gen.S{"a": gen.S{"type": "string", "maxLength": 4.0}}}, "object"},
 		{"additionalProperties", gen.S{"type": "object", "properties": gen.S{"z": gen.S{"type": "string"}}, "additionalProperties": false}, "object"},
 		{"required", gen.S{"type": "object", "required": gen.Arr("zz"), "properties": gen.S{"a": gen.S{"type": "string"}}}, "object"},
+		// a value of the right outer form that the format still refuses (30 February)
+		{"format-date-shaped", gen.S{"type": "string", "format": "date", "maxLength": 9.0}, "scalar-date"},
+		{"format-date-time-shaped", gen.S{"type": "string", "format": "date-time", "maxLength": 9.0}, "scalar-date-time"},
+		// a read-only property sent in a request, a write-only one sent in a response
+		{"readOnly", gen.S{"type": "string", "readOnly": true}, "scalar-ro"},
+		{"writeOnly", gen.S{"type": "string", "writeOnly": true}, "scalar-wo"},
 	}
 }
 
@@ -52,7 +58,11 @@ var c19Locations = []string{"path", "query", "header", "cookie", "json-body", "f
 
 func c19Applies(loc, shape string) bool {
 	switch shape {
-	case "scalar":
+	case "scalar-ro":
+		return loc == "json-body"
+	case "scalar-wo":
+		return loc == "response-body"
+	case "scalar", "scalar-date", "scalar-date-time":
 		return true
 	case "array", "array-dup":
 		return loc == "path" || loc == "query" || loc == "header" || loc == "json-body" || loc == "response-body" || loc == "response-header"
@@ -73,6 +83,10 @@ func c19Value(shape string, markers *[]string) any {
 		return []any{m, m}
 	case "object":
 		return gen.S{"a": mk(), "b": mk()}
+	case "scalar-date", "scalar-date-time":
+		m := newShapedMarker(shape[len("scalar-"):])
+		*markers = append(*markers, m)
+		return m
 	}
 	return mk()
 }
